@@ -134,6 +134,7 @@ pub fn write_storage(spec: &Value, root: &str) -> Result<(), String> {
                 };
                 let z = if b["meta_garbage"].as_bool().unwrap_or(false) { text } else { zstd::encode_all(Cursor::new(text), 3).map_err(|e| e.to_string())? };
                 let z = match b["meta_truncate"].as_u64() { Some(n) => z[..std::cmp::min(n as usize, z.len())].to_vec(), None => z };
+                let z = match b["meta_truncate_permille"].as_u64() { Some(n) => z[..(z.len() as u64 * n / 1000) as usize].to_vec(), None => z };
                 let z = match b["meta_append_hex"].as_str() { Some(h) => { let mut z = z; z.extend(hex::decode(h).map_err(|e| e.to_string())?); z }, None => z };
                 fs::write(bp.join("metadata.zst"), z).map_err(|e| e.to_string())?;
             }
